@@ -345,6 +345,8 @@ func c03Run(c *mc.Ctx) {
 	c.Done("ttheader.IsStreaming / DecodeFromBytes: all strings up to length 9 over {00,10,01,ff}")
 	// (2) truncations, structural perturbations and splices of valid encodings, per entry point family
 	c03Structured(c, th)
+	// (3) call histories on one skip decoder over complete / truncated / wrong-typed input
+	c03Histories(c)
 }
 
 func init() {
@@ -369,6 +371,11 @@ func init() {
 			return mem(pa[2]) && mem(pb[2])
 		},
 		Replay: func(c *mc.Ctx, sub string, raw json.RawMessage) {
+			if sub == "dechist" {
+				setAllocCap(64 << 20)
+				replayAs(raw, func(k c03Hist) { c03HistOne(c, k) })
+				return
+			}
 			replayAs(raw, func(k c03Case) {
 				if k.Span {
 					thrift.SetSpanCache(true)
